@@ -51,38 +51,90 @@ func r11_8(c *Ctx, rule string) {
 	}
 	lit := fw.lit
 	n := 0
-	eng.Instrs(lit, func(in ssa.Instruction) {
-		ld, ok := in.(*ssa.UnOp)
-		if !ok || ld.Op != token.MUL {
-			return
-		}
-		fa, ok := ld.X.(*ssa.FieldAddr)
-		if !ok {
-			return
-		}
-		switch eng.FieldOwnerName(fa.X.Type(), fa.Field) {
+	inherited := func(owner string) bool {
+		switch owner {
 		case "fsutil.visitedDir.includeMatchInfo", "fsutil.visitedDir.excludeMatchInfo", "fsutil.visitedDir.pathWithSep":
-		default:
-			return
+			return true
 		}
-		ia, ok := fa.X.(*ssa.IndexAddr)
-		if !ok {
-			return
+		return false
+	}
+	// does the element address v (an IndexAddr, or what a helper returned)
+	// end up in a read of the inherited state?
+	var readsInherited func(v ssa.Value, d int) bool
+	readsInherited = func(v ssa.Value, d int) bool {
+		if d > 3 {
+			return false
 		}
-		cell := c.P.LoadedCell(ia.X)
-		if cell == "" {
+		for _, r := range eng.Referrers(v) {
+			switch u := r.(type) {
+			case *ssa.FieldAddr:
+				if u.X == v && inherited(eng.FieldOwnerName(u.X.Type(), u.Field)) {
+					for _, r2 := range eng.Referrers(u) {
+						if ld, isL := r2.(*ssa.UnOp); isL && ld.Op == token.MUL {
+							return true
+						}
+					}
+				}
+			case *ssa.Phi:
+				if readsInherited(u, d+1) {
+					return true
+				}
+			case *ssa.Return:
+				// handed back by a helper (`top()`): what its callers do with it
+				found := false
+				eng.Instrs(lit, func(i2 ssa.Instruction) {
+					if call, isC := i2.(*ssa.Call); isC && call.Common().StaticCallee() == u.Parent() && readsInherited(call, d+1) {
+						found = true
+					}
+				})
+				if found {
+					return true
+				}
+			}
+		}
+		return false
+	}
+	sameStack := func(a, b ssa.Value) bool {
+		if ca, cb := c.P.LoadedCell(a), c.P.LoadedCell(b); ca != "" || cb != "" {
+			return ca == cb
+		}
+		return eng.SameValue(eng.Canon(a), eng.Canon(b))
+	}
+	eng.Instrs(lit, func(in ssa.Instruction) {
+		ia, ok := in.(*ssa.IndexAddr)
+		if !ok || !readsInherited(ia, 0) {
 			return
 		}
 		n++
 		isLast := false
 		if bo, isB := eng.Canon(ia.Index).(*ssa.BinOp); isB && bo.Op == token.SUB {
 			if k1, isK := eng.ConstInt(bo.Y); isK && k1 == 1 {
-				if lc, isL := eng.Canon(bo.X).(*ssa.Call); isL && c.P.CalleeName(lc) == "builtin:len" && c.P.LoadedCell(lc.Call.Args[0]) == cell {
+				// len(stack), possibly carried by a loop variable that is
+				// len(stack) on every edge
+				var isLen func(v ssa.Value, d int) bool
+				isLen = func(v ssa.Value, d int) bool {
+					switch y := eng.Canon(v).(type) {
+					case *ssa.Call:
+						return c.P.CalleeName(y) == "builtin:len" && sameStack(y.Call.Args[0], ia.X)
+					case *ssa.Phi:
+						if d > 2 {
+							return false
+						}
+						for _, e := range y.Edges {
+							if !isLen(e, d+1) {
+								return false
+							}
+						}
+						return len(y.Edges) > 0
+					}
+					return false
+				}
+				if isLen(bo.X, 0) {
 					isLast = true
 				}
 			}
 		}
-		c.R.Check(isLast, rule, fmt.Sprintf("%s/nearest-ancestor#%d", c.name(lit), n), c.pos(ld), "read from the last element of the stack", "the inherited match state (or containment prefix) is read from a slot other than the last of the open-directories stack: an outer directory's verdict stands for the nearest one, walk and Open disagree")
+		c.R.Check(isLast, rule, fmt.Sprintf("%s/nearest-ancestor#%d", c.name(lit), n), c.pos(ia), "read from the last element of the stack", "the inherited match state (or containment prefix) is read from a slot other than the last of the open-directories stack: an outer directory's verdict stands for the nearest one, walk and Open disagree")
 	})
 	if n == 0 {
 		c.R.OK(rule, c.name(lit)+"/nearest-ancestor", c.P.Pos(lit.Pos()), "the open-directories stack is not read by index in this callback (not interpreted)")
